@@ -541,7 +541,8 @@ impl<'cmd> Parser<'cmd> {
             && self.cmd.has_positionals()
             && (arg_os.is_long() || arg_os.is_short());
 
-        if self.cmd.has_subcommands() {
+        // After a `--` no token is a subcommand
+        if self.cmd.has_subcommands() && !trailing_values {
             if self.cmd.is_args_conflicts_with_subcommands_set()
                 && valid_arg_found
                 && self.possible_subcommand(arg_os.to_value(), false).is_some()
